@@ -218,7 +218,7 @@ class StandardTextLayout(TextLayout):
                 pad_right = 0
 
             line = []
-            if idx != end_off:
+            if idx != end_off and screen_columns > 0:
                 line += [(screen_columns, idx, end_off)]
             if trimmed:
                 line += [(ellipsis_width, end_off, ellipsis_char)]
@@ -306,7 +306,7 @@ class StandardTextLayout(TextLayout):
                 if text[prev] == sp_o:
                     screen_columns = calc_width(text, idx, prev)
                     line = [(0, prev)]
-                    if idx != prev:
+                    if idx != prev and screen_columns > 0:
                         line = [(screen_columns, idx, prev), *line]
                     segments.append(line)
                     idx = prev + 1
@@ -421,7 +421,8 @@ class LayoutSegment:
             lines = []
             if pad_left:
                 lines.append((1, spos - 1))
-            lines.append((end - start - pad_left - pad_right, spos, epos))
+            if end - start - pad_left - pad_right > 0:
+                lines.append((end - start - pad_left - pad_right, spos, epos))
             if pad_right:
                 lines.append((1, epos))
             return lines
